@@ -86,7 +86,8 @@ PROPS["C01"] = {
     "prop_modules": ["Flounder.Props.C01"],
     # the search pass also dumps the attack tables exhaustively: when a table constant changed (the kernel facts of C10 no longer
     # check) the (square, occupancy) whose attack set is wrong is the most direct failing input for the generator built on it
-    "budget": {"quick": [("c01", 6000)], "thorough": [("c01", 400000)], "search": [("c01", 800000), ("c10x", 20000)]},
+    # c02: positions REACHED by the engine's own make_move (games), boards and move sets judged along the way by the rules
+    "budget": {"quick": [("c01", 6000), ("c02", 2500)], "thorough": [("c01", 400000), ("c02", 200000)], "search": [("c01", 800000), ("c10x", 20000), ("c02", 400000)]},
     "rule": CHESS_RULE + "; per board three operations: the SET of generated moves (sorted, duplicates kept) vs model vs Spec.legalMoves, the ORDERED list vs model, the check test vs Spec.inCheck",
     "explanation": "C01's full theorem (GenerateMovesExact: Nodup + generated = Spec.legal + check test exact, for every Valid board) is stated in Props/C01.lean and is not closed yet; what is machine-checked so far is listed under 'theorems' (filter structure, double check, and the table exactness it relies on via Spec.LookupExact when Props/C10 is closed). Until the layers L2-L7 of DESIGN.md are closed this property is decided per position by the three-way correspondence: real generate_moves vs the Lean model vs the executable FIDE spec (Spec/Chess.lean) — a bounded, sampled decision, labelled as such.",
     "trusted_base": [KERNEL, AXIOMS, TIE, EXTRACT, "Spec/Chess.lean (FIDE rules on a mailbox board, ~230 lines) is the meaning of 'legal'"],
